@@ -56,6 +56,34 @@ def drive_sizes(rec, quick):
     rec.data["events"] = events
 
 
+def drive_layout(rec, tablen, quick):
+    """table objects with library-owned work buffers: where the table and the buffers lie inside the heap block"""
+    import ctypes
+    L = Lib.get()
+    events = []
+    for kind in ("reim_fft", "reim_ifft", "cplx_fft", "cplx_ifft"):
+        layout = kind.split("_")[0]
+        for m in sorted(set(int(k.split(":")[1]) for k in tablen if k.startswith(layout + ":"))):
+            for nb in (0, 1, 3):
+                if not rec.progress("new_%s_precomp(m=%d, num_buffers=%d)" % (kind, m, nb)):
+                    continue
+                t = L.fn("new_%s_precomp" % kind, "p ww")(m, nb)
+                base, size = L.block(t)
+                fld = ctypes.cast(t, ctypes.POINTER(ctypes.c_uint64))
+                tab, bufsize = int(fld[3]), int(fld[2])
+                getb = L.fn("%s_precomp_get_buffer" % kind, "p pw")
+                bufs = [int(getb(t, i)) for i in range(nb)]
+                rec.case(("layout", kind, m, nb))
+                # the inverse tables have the length of the forward ones (same schedule read backwards)
+                events.append({"e": "Layout", "kind": kind, "m": m, "nb": nb, "size": size, "tab": tab - base, "tabal": tab % 32,
+                               "need": 8 * tablen["%s:%d" % (layout, m)], "bufs": [b - base for b in bufs], "bufal": [b % 32 for b in bufs],
+                               "bufsize": bufsize, "data": 16 * m,
+                               "_what": "new_%s_precomp(m=%d, num_buffers=%d): table at +%d, buffers at %s of a block of %d bytes" % (
+                                   kind, m, nb, tab - base, [b - base for b in bufs], size)})
+                L.fn("free", "v p")(t) if False else None
+    rec.data["events"] = events
+
+
 def run(chk, replay=None):
     quick = chk.tier == "quick"
     Lib.get()
@@ -73,6 +101,14 @@ def run(chk, replay=None):
     # 2. sizes and scopes
     d = isolated(chk, "declared sizes and allocation scopes", drive_sizes, (quick,), timeout=600)
     events = d["events"] if d else []
+    tablen = {}
+    for cfg in ("FftSchedule_gen.cfg", "FftSchedule_cplx_gen.cfg"):
+        r = run_tlc("FftSchedule", cfg, workers=1, xmx="8g", name="c11-" + cfg, timeout=900)
+        tlc_must_pass(r, cfg)
+        for tb in printed_json(r, "TABLE"):
+            tablen["%s:%d" % (tb["layout"], tb["m"])] = len(tb["table"])
+    d = isolated(chk, "layout of table objects with work buffers", drive_layout, (tablen, quick), timeout=600)
+    events += d["events"] if d else []
     clean = [{k: v for k, v in ev.items() if not k.startswith("_")} for ev in events]
     bad, results = validate_events("FrameTrace", "FrameTrace.cfg", clean, "c11", nproc=2, timeout=600)
     for rr in results:
